@@ -91,7 +91,7 @@ def rule_rm(ctx):
             cbs = [make_callback(p, d, v, e, et, label=l) for l, d, v, e, et in specs]
             # cb3 shares cb0's callback function (criteria by callback must remove both)
             cbs[3].attrs["callback"] = cbs[0].attrs["callback"]
-            c = make_client(p, cbs)
+            c = make_client(p, cbs, it=it)
             it.client, it.cbs = c, cbs
             tgt = cbs[0]
             kw = {}
@@ -133,7 +133,7 @@ def rule_rm(ctx):
     g = bc.find_method("onevent")
 
     def run2(it: Interp):
-        c = make_client(p, [make_callback(p, label="old")])
+        c = make_client(p, [make_callback(p, label="old")], it=it)
         it.client = c
         return it.run_function(Fn(g, c), [], {"callback": Obj(None, label="<fn:new>"), "device": Const("D"), "vector": Const("V"), "element": Const("E"), "event_type": Cls(p.cls("indi.client.events.ValueUpdate"))})
 
@@ -161,7 +161,7 @@ def rule_contain(ctx):
 
     def run(it: Interp):
         cbs = [make_callback(p, label=f"cb{i}") for i in range(3)]
-        c = make_client(p, cbs)
+        c = make_client(p, cbs, it=it)
         ev = Obj(p.cls("indi.client.events.ValueUpdate"), {"device": Const(None), "vector": Const(None), "element": Const(None)}, label="event")
         it.ev = ev
         return it.run_function(Fn(f, c), [ev], {})
@@ -188,7 +188,7 @@ def rule_contain(ctx):
         ctx.holds("C16.CONTAIN", f.short, f"{len(paths)} raise/no-raise combinations of three callbacks: each invoked once, nothing escapes", fi=f)
     # coroutine callbacks are scheduled, not called
     def run2(it: Interp):
-        c = make_client(p, [make_callback(p, label="co")])
+        c = make_client(p, [make_callback(p, label="co")], it=it)
         ev = Obj(p.cls("indi.client.events.ValueUpdate"), {"device": Const(None), "vector": Const(None), "element": Const(None)}, label="event")
         return it.run_function(Fn(f, c), [ev], {})
 
@@ -248,7 +248,7 @@ def rule_registry(ctx):
 
 
 def _events_for(p, stream_factory):
-    paths = feed(p, lambda: make_client(p, [make_callback(p, label="all")]), stream_factory)
+    paths = feed(p, lambda it: make_client(p, [make_callback(p, label="all")], it=it), stream_factory)
     return paths
 
 
@@ -270,7 +270,7 @@ def rule_iff(ctx):
         ]
         for title, children, state, expect in cases:
             n += 1
-            paths = feed(p, lambda: make_client(p, [make_callback(p, label="all")]), lambda: defs() + [msg(p, f"Set{kind}Vector", "D", "V1", [part(p, f"One{kind}", nm, vv) for nm, vv in children], state=state)])
+            paths = feed(p, lambda it: make_client(p, [make_callback(p, label="all")], it=it), lambda: defs() + [msg(p, f"Set{kind}Vector", "D", "V1", [part(p, f"One{kind}", nm, vv) for nm, vv in children], state=state)])
             ctx.paths_enumerated += len(paths)
             for pa in paths:
                 if pa.outcome != "return":
@@ -286,7 +286,7 @@ def rule_iff(ctx):
     if not bad:
         ctx.holds("C16.IFF", f.short, f"{n} update cases x 4 kinds: events are exactly the changes, each once, with (old, new) = (previous, current)", fi=f)
     # first definition: DefinitionUpdate is raised, value/state events start the chain from None
-    paths = feed(p, lambda: make_client(p, [make_callback(p, label="all")]), lambda: [msg(p, "DefTextVector", "D", "V1", [part(p, "DefText", "A", "a")], state="Ok")])
+    paths = feed(p, lambda it: make_client(p, [make_callback(p, label="all")], it=it), lambda: [msg(p, "DefTextVector", "D", "V1", [part(p, "DefText", "A", "a")], state="Ok")])
     for pa in paths:
         evs = [event_summary(e) for _, e, _ in delivered_events(pa)]
         ok = ("DefinitionUpdate", "D", "V1", None) in evs and ("ValueUpdate", "D", "V1", "A", "None", "'a'") in evs and ("StateUpdate", "D", "V1", None, "None", "'Ok'") in evs and len(evs) == 3
@@ -349,7 +349,7 @@ def rule_chain(ctx):
     f = p.cls("indi.client.device.Device").find_method("process_message")
     d1 = lambda: msg(p, "DefTextVector", "D", "V1", [part(p, "DefText", "A", "a"), part(p, "DefText", "B", "a")], state="Ok")
     d2 = lambda: msg(p, "DefTextVector", "D", "V1", [part(p, "DefText", "A", "a"), part(p, "DefText", "B", "b")], state="Ok")
-    paths = feed(p, lambda: make_client(p, [make_callback(p, label="all")]), lambda: [d1(), d2()])
+    paths = feed(p, lambda it: make_client(p, [make_callback(p, label="all")], it=it), lambda: [d1(), d2()])
     ctx.paths_enumerated += len(paths)
     bad = False
     for pa in paths:
